@@ -139,6 +139,7 @@ func c08(p *core.Program, r *core.Report) {
 	overlapRule(p, r, "overlap-closed-intervals")
 	distinctStorageRule(p, r, "min-max-distinct-storage")
 	cornerNotCoordinateRule(p, r, "corner-not-a-coordinate")
+	foldWholeGeometryRule(p, r, "fold-whole-geometry")
 	footprintRule(p, r, "coordinate-coverage", [][2]string{{"", "(*Bounds).extendFlatCoords"}})
 
 	r.Assume("tightness for all inputs, order independence and the closed-interval overlap semantics are not decided")
